@@ -77,6 +77,7 @@ def exact_value(item, units):
 
 
 def run(ctx):
+    C.config_matrix(ctx["report"], ctx["rundir"], "C09", ["1 $ == 1 usd", "1 $ < 1 usd", "1 usd in {1 $}", "1 € == 1 eur", "1 £ >= 1 gbp", "1 eur < 1 gbp", "(1 eur == 1 eur) + (1 usd == 1 usd)", "1 dozen == 12", "3 rad > 2", "1 m == 100 cm", "1/2 < 0.5", "C(4,2) == 3!", "1 keur > 999 eur"])
     # comparisons reached through variables, arrays, comprehensions; lazy values that share ranges; aggregates over comparables
     C.seam_check(ctx["report"], ctx["rundir"], "C09",
                  texts=["1/2 < 0.5", "3! == 6", "1 dozen == 12", "3 rad > 2", "1 m == 100 cm", "#2020-01-01# < #2020-01-02#", "C(4,2) == 3!", "5 m < 5 s",
